@@ -800,6 +800,101 @@ pub struct ZG4 {
     pub h: ZG3<ZL0>,
 }
 
+// ---- family SE: serde attributes (serde-compat), manifest-free --------------------------------
+
+#[derive(TS, serde::Serialize)]
+#[ts(export_to = p(101), rename = n(101))]
+pub struct SL0 {
+    pub v: i32,
+}
+
+#[derive(TS, serde::Serialize)]
+#[ts(export_to = p(102), rename = n(102))]
+pub struct SL1 {
+    pub v: i32,
+}
+
+#[derive(TS, serde::Serialize)]
+#[ts(export_to = p(103), rename = n(103))]
+pub struct SL2 {
+    pub v: i32,
+}
+
+#[derive(TS, serde::Serialize)]
+#[ts(export_to = p(104), rename = n(104))]
+pub struct SL3 {
+    pub v: i32,
+}
+
+#[derive(TS, serde::Serialize)]
+#[ts(export_to = p(105), rename = n(105))]
+pub struct SL4 {
+    pub v: i32,
+}
+
+#[derive(TS, serde::Serialize)]
+#[ts(export_to = p(106), rename = n(106))]
+pub struct SL5 {
+    pub v: i32,
+}
+
+#[derive(TS, serde::Serialize)]
+#[ts(export_to = p(107), rename = n(107))]
+pub struct SX0 {
+    pub v: i32,
+}
+
+#[derive(TS, serde::Serialize)]
+#[ts(export_to = p(108), rename = n(108))]
+pub struct SW0 {
+    pub inner: SX0,
+}
+
+#[derive(TS, serde::Serialize)]
+#[ts(export_to = p(109), rename = n(109))]
+#[serde(rename_all = "camelCase")]
+pub struct SE0 {
+    pub plain_field: SL0,
+    #[serde(skip)]
+    pub skipped: SL5,
+    #[serde(flatten)]
+    pub flat: SW0,
+    #[serde(rename = "renamed-field")]
+    pub other: SL1,
+    #[serde(skip_serializing_if = "Option::is_none")]
+    pub opt: Option<SL2>,
+}
+
+#[derive(TS, serde::Serialize)]
+#[ts(export_to = p(110), rename = n(110))]
+#[serde(tag = "kind", content = "data", rename_all = "snake_case")]
+pub enum SE1 {
+    UnitVariant,
+    NewType(SL0),
+    Tuple(SL1, SL2),
+    Struct {
+        field_one: SL3,
+        #[serde(skip)]
+        hidden: SL5,
+    },
+    #[serde(skip)]
+    Skipped(SL5),
+    #[serde(untagged)]
+    Fallback(SL4),
+}
+
+#[derive(TS, serde::Serialize)]
+#[ts(export_to = p(111), rename = n(111))]
+#[serde(untagged)]
+pub enum SE2 {
+    A(SL0),
+    B {
+        #[serde(flatten)]
+        inner: SW0,
+        x: SL3,
+    },
+}
+
 // ---- family L: literal attributes, as in ordinary user code -------------------------------
 
 #[derive(TS)]
@@ -832,7 +927,7 @@ pub struct L3 {
 pub struct L4(pub String);
 
 /// Number of definitions that read the table (`p(i)` / `n(i)`).
-pub const DER_DEFS: usize = 101;
+pub const DER_DEFS: usize = 112;
 
 #[derive(Clone, Copy, Debug)]
 pub enum Place {
@@ -986,7 +1081,18 @@ pub const H_ZG2_DUMMY_: usize = 118;
 pub const H_ZG2_ZV2_: usize = 119;
 pub const H_ZG3: usize = 120;
 pub const H_ZG4: usize = 121;
-pub const DER_HANDLES: usize = 122;
+pub const SL0_: usize = 122;
+pub const SL1_: usize = 123;
+pub const SL2_: usize = 124;
+pub const SL3_: usize = 125;
+pub const SL4_: usize = 126;
+pub const SL5_: usize = 127;
+pub const SX0_: usize = 128;
+pub const SW0_: usize = 129;
+pub const SE0_: usize = 130;
+pub const SE1_: usize = 131;
+pub const SE2_: usize = 132;
+pub const DER_HANDLES: usize = 133;
 
 use Place::{Lit, RenameOnly, Table as Tb};
 
@@ -1154,6 +1260,18 @@ pub const MANIFEST: [DerInfo; DER_HANDLES] = [
     DerInfo { label: "ZG2<ZV2>", place: Tb(98), import_refs: &[], reach_refs: &[] },
     DerInfo { label: "ZG3", place: Tb(99), import_refs: &[], reach_refs: &[] },
     DerInfo { label: "ZG4", place: Tb(100), import_refs: &[], reach_refs: &[] },
+    // family SE (manifest-free: >= AUTO2_FROM)
+    DerInfo { label: "SL0", place: Tb(101), import_refs: &[], reach_refs: &[] },
+    DerInfo { label: "SL1", place: Tb(102), import_refs: &[], reach_refs: &[] },
+    DerInfo { label: "SL2", place: Tb(103), import_refs: &[], reach_refs: &[] },
+    DerInfo { label: "SL3", place: Tb(104), import_refs: &[], reach_refs: &[] },
+    DerInfo { label: "SL4", place: Tb(105), import_refs: &[], reach_refs: &[] },
+    DerInfo { label: "SL5", place: Tb(106), import_refs: &[], reach_refs: &[] },
+    DerInfo { label: "SX0", place: Tb(107), import_refs: &[], reach_refs: &[] },
+    DerInfo { label: "SW0", place: Tb(108), import_refs: &[], reach_refs: &[] },
+    DerInfo { label: "SE0", place: Tb(109), import_refs: &[], reach_refs: &[] },
+    DerInfo { label: "SE1", place: Tb(110), import_refs: &[], reach_refs: &[] },
+    DerInfo { label: "SE2", place: Tb(111), import_refs: &[], reach_refs: &[] },
 ];
 
 pub fn der_handle(h: usize) -> Handle {
@@ -1281,6 +1399,17 @@ pub fn der_handle(h: usize) -> Handle {
         H_ZG2_ZV2_ => handle::<ZG2<'static, ZV2, 3>>(l),
         H_ZG3 => handle::<ZG3<ZL0>>(l),
         H_ZG4 => handle::<ZG4>(l),
+        SL0_ => handle::<SL0>(l),
+        SL1_ => handle::<SL1>(l),
+        SL2_ => handle::<SL2>(l),
+        SL3_ => handle::<SL3>(l),
+        SL4_ => handle::<SL4>(l),
+        SL5_ => handle::<SL5>(l),
+        SX0_ => handle::<SX0>(l),
+        SW0_ => handle::<SW0>(l),
+        SE0_ => handle::<SE0>(l),
+        SE1_ => handle::<SE1>(l),
+        SE2_ => handle::<SE2>(l),
         _ => panic!("no such derived handle {h}"),
     }
 }
